@@ -1,8 +1,10 @@
 package c04
 
-// Side finding, outside property C04 (found while building this check; reported so it is not
-// lost). Runs only with VERIF_SIDE=1.
+// Side findings, outside property C04 (found while building this check; reported so they are
+// not lost). They run only with VERIF_SIDE=1. The first two are repaired in /repo by now
+// (035c997 and 3940569) and pass; the third one is open (proposed_fix_memdb_new_metric_store_gc.diff).
 //
+// First side finding:
 // tsdb/memdb/database.go NewMemoryDatabase stamps a memory database with
 // `createdTime: fasttime.UnixNano()` and uses that value as the KEY of the per-metric slot range
 // kept in the shard-wide time series index (timeSeriesIndex.StoreTimeRange / GetTimeRange /
